@@ -452,12 +452,12 @@ theorem nonFinite_finite (a c : Bool) (t : Bytes) : nonFinite a false c t = .bar
   simp [nonFinite]
 
 theorem finite32_exp (b : Nat) (h : finite32 b = true) : decide (b / 2 ^ 23 % 256 = 255) = false := by
-  simp only [finite32, Bool.and_eq_true, decide_eq_true_eq, bne_iff_ne, ne_eq] at h
-  simp [h.2]
+  simp only [finite32, bne_iff_ne, ne_eq] at h
+  simp [h]
 
 theorem finite64_exp (b : Nat) (h : finite64 b = true) : decide (b / 2 ^ 52 % 2048 = 2047) = false := by
-  simp only [finite64, Bool.and_eq_true, decide_eq_true_eq, bne_iff_ne, ne_eq] at h
-  simp [h.2]
+  simp only [finite64, bne_iff_ne, ne_eq] at h
+  simp [h]
 
 theorem scalarTok_num_of_head (t : Bytes) (h : ∃ c r, t = c :: r ∧ (c = 0x2D ∨ isDigit c = true)) :
     scalarTok (.bare t) = .num t := by
